@@ -69,6 +69,17 @@ fn gen_c08(tier: &Tier, rng: &mut Rng, w: usize, nw: usize, out: &mut Vec<Case>)
             idx += 1;
         }
     }
+    if w == 1 % nw {
+        for n in [255usize, 256, 65535, 65536, 70000] {
+            let m = vec![0x12u8, 0x34];
+            let mut g = vec![0xaau8; n];
+            g.extend_from_slice(&spec::START[..5]);
+            out.push(
+                Case::new("noise-long", vec![format!("dec inf - {} {} F", tok(&g), tok(&spec::frame(&m)))])
+                    .with_aux(vec!["0".into(), hex(&g), hex(&m)]),
+            );
+        }
+    }
     // (b) random noise x payload x idle history
     let n = if tier.thorough { 400_000 } else { 60_000 } / nw;
     for _ in 0..n {
@@ -142,6 +153,7 @@ fn gen_c14(tier: &Tier, rng: &mut Rng, _w: usize, nw: usize, out: &mut Vec<Case>
         let s1 = adversarial_stream(rng, 8);
         let s2 = if rng.chance(1, 2) { adversarial_stream(rng, 8) } else { [start_free_noise(rng, 6), spec::frame(&rand_payload(rng, 8))].concat() };
         // find the boundary positions of s1 by running the implementation
+        // (implrun::run catches panics of the code under test)
         let ev = crate::implrun::run(&format!("dec {} {}", cap_tok(cap), tok(&s1))).text;
         let mut cuts: Vec<usize> = ev
             .split(' ')
@@ -280,7 +292,46 @@ fn gen_c16(tier: &Tier, rng: &mut Rng, w: usize, nw: usize, out: &mut Vec<Case>)
 // C11: I/O faults
 // ---------------------------------------------------------------------------------------------
 
+/// a call script mixing all four entry points
+fn mixed_calls(rng: &mut Rng, n: usize) -> String {
+    let style = rng.below(4);
+    (0..n)
+        .map(|_| match style {
+            0 => 'n',
+            1 => 'N',
+            2 => *rng.pick(&['r', 'R']),
+            _ => *rng.pick(&['n', 'N', 'r', 'R']),
+        })
+        .collect()
+}
+
 fn gen_c11(tier: &Tier, rng: &mut Rng, _w: usize, nw: usize, out: &mut Vec<Case>) {
+    // File / Parser targets with faults and with payloads that are not valid SML (compared with the model)
+    for _ in 0..(if tier.thorough { 60_000 } else { 6_000 }) / nw {
+        let mut evs: Vec<u8> = Vec::new();
+        for _ in 0..rng.range(1, 3) {
+            evs.extend(start_free_noise(rng, 3));
+            let payload = if rng.chance(1, 2) {
+                let gf = gfile(rng, 2, 2);
+                encode_file(rng, &gf, false)
+            } else {
+                rand_payload(rng, 12)
+            };
+            evs.extend(spec::frame(&payload));
+        }
+        let ncalls = 10;
+        let mut cs = String::new();
+        for _ in 0..ncalls {
+            cs.push(*rng.pick(&['n', 'N', 'r', 'R', 'n']));
+            cs.push(*rng.pick(&['b', 'f', 'p']));
+        }
+        let kind = if rng.chance(1, 5) { "eh" } else { "io" };
+        let mut toks = fault_events(rng, &evs, true);
+        if kind == "eh" {
+            toks = toks.split(' ').filter(|t| *t != "I").collect::<Vec<_>>().join(" ");
+        }
+        out.push(Case::new("sml-faults", vec![format!("sml {} {} {} {}", kind, *rng.pick(&["inf", "1024", "8192", "16"]), cs, toks)]));
+    }
     if _w == 0 {
         // faults and end of input after 2^16 and more pending bytes (noise, and an unfinished frame)
         for n in [65535usize, 65536, 65537, 70000, 131072] {
@@ -301,7 +352,19 @@ fn gen_c11(tier: &Tier, rng: &mut Rng, _w: usize, nw: usize, out: &mut Vec<Case>
             }
         }
     }
-    let n = if tier.thorough { 400_000 } else { 60_000 } / nw;
+        // embedded-hal source: a hard error (or an interrupted read, which this source cannot tell apart)
+    // while `pre` (noise or an unfinished frame, nothing reported yet) is pending
+    for _ in 0..(if tier.thorough { 20_000 } else { 2_000 }) / nw {
+        let pre: Vec<u8> = if rng.chance(1, 2) { start_free_noise(rng, 8) } else { [spec::START.to_vec(), alpha_range(rng, 0, 5).into_iter().filter(|b| *b != 0x1b).collect()].concat() };
+        let p2 = rand_payload(rng, 6);
+        let ev = *rng.pick(&["O", "Oc", "I", "Ex"]);
+        let c = *rng.pick(&['n', 'N', 'r', 'R']);
+        out.push(
+            Case::new("other-error-eh", vec![format!("rdr eh inf {} {} {} {}", calls(c, 3), tok(&pre), ev, tok(&spec::frame(&p2)))])
+                .with_aux(vec![pre.len().to_string(), hex(&p2)]),
+        );
+    }
+let n = if tier.thorough { 400_000 } else { 60_000 } / nw;
     for _ in 0..n {
         let s: Vec<u8> = if rng.chance(1, 2) {
             adversarial_stream(rng, 8)
@@ -322,20 +385,19 @@ fn gen_c11(tier: &Tier, rng: &mut Rng, _w: usize, nw: usize, out: &mut Vec<Case>
             let evs = fault_events(rng, &s, false);
             let nfaults = evs.split(' ').filter(|t| *t == "W").count();
             let ncalls = s.len() / 8 + 6;
-            let c = if rng.chance(1, 2) { 'n' } else { 'N' };
-            let c0 = if c == 'n' { 'n' } else { 'N' };
+            let c0 = 'n';
             if kind == "eh" {
                 // no end of input on a serial port: compare prefixes only (see oracle)
                 out.push(
                     Case::new("wouldblock-eh", vec![
-                        format!("rdr eh {} {} {}", ct, calls(c, ncalls + nfaults), evs.replace(" I", "")),
+                        format!("rdr eh {} {} {}", ct, mixed_calls(rng, ncalls + nfaults), evs.replace(" I", "").replace("I ", "")),
                         format!("rdr eh {} {} {}", ct, calls(c0, ncalls), tok(&s)),
                     ]),
                 );
             } else {
                 out.push(
                     Case::new("wouldblock", vec![
-                        format!("rdr io {} {} {}", ct, calls(c, ncalls + nfaults), evs),
+                        format!("rdr io {} {} {}", ct, mixed_calls(rng, ncalls + nfaults), evs),
                         format!("rdr io {} {} {}", ct, calls(c0, ncalls), tok(&s)),
                     ]),
                 );
@@ -381,11 +443,8 @@ pub fn real_payloads() -> Vec<Vec<u8>> {
         paths.sort();
         for p in paths {
             if let Ok(bytes) = std::fs::read(&p) {
-                for r in sml_rs::transport::decode(&bytes) {
-                    if let Ok(m) = r {
-                        v.push(m);
-                    }
-                }
+                // de-frame with the harness's own reference (independent of the code under test)
+                v.extend(spec::deframe(&bytes));
             }
         }
     }
@@ -797,6 +856,53 @@ fn gen_c12(tier: &Tier, rng: &mut Rng, w: usize, nw: usize, out: &mut Vec<Case>)
             out.push(Case::new("int-status", vec![format!("stream {} 1", tok(&y))]).with_aux(vec!["s".into(), hex(&bytes)]));
         }
     }
+    // (b') fixed-width positions: group-no / abort-on-error (u8), scaler (i8), unit (u8), time (u32), body tag (u32)
+    for _ in 0..ni / 2 {
+        let wdt = rng.range(0, 6);
+        let signed = rng.chance(1, 2);
+        let mut bytes: Vec<u8> = (0..wdt).map(|_| rng.byte()).collect();
+        if wdt > 0 {
+            bytes[0] = *rng.pick(&[0x00, 0x7f, 0x80, 0xff, bytes[0]]);
+        }
+        let mut v = Vec::new();
+        Enc::tlf_raw(if signed { 5 } else { 6 }, (wdt + 1) as u64, 1, &mut v);
+        v.extend_from_slice(&bytes);
+        // message head with the field at the group-no position, then a close response
+        let mut x = vec![0x76, 0x01];
+        x.extend_from_slice(&v);
+        x.extend_from_slice(&[0x62, 0x00, 0x72, 0x63, 0x02, 0x01, 0x71, 0x01]);
+        out.push(Case::new("int-fixed-pos", vec![format!("stream {} 1", tok(&x))]));
+        // scaler / unit / time positions of a list entry
+        let pos = rng.below(3);
+        let mut y = glr_prefix();
+        y.push(0x71);
+        y.extend_from_slice(&[0x77, 0x01, 0x01]);
+        match pos {
+            0 => {
+                // valTime position: a bare number (only unsigned with exactly four bytes is the workaround)
+                y.extend_from_slice(&v);
+                y.extend_from_slice(&[0x01, 0x01]);
+            }
+            1 => {
+                y.push(0x01);
+                y.extend_from_slice(&v);
+                y.push(0x01);
+            }
+            _ => {
+                y.extend_from_slice(&[0x01, 0x01]);
+                y.extend_from_slice(&v);
+            }
+        }
+        y.extend_from_slice(&[0x01, 0x01]);
+        out.push(Case::new("int-fixed-pos", vec![format!("stream {} 1", tok(&y))]));
+        // boolean fields with a length other than one byte
+        let mut z = glr_prefix();
+        z.push(0x71);
+        z.extend_from_slice(&[0x77, 0x01, 0x01, 0x01, 0x01, 0x01]);
+        z.push(0x40 | (rng.below(6) as u8));
+        z.extend_from_slice(&[rng.byte(), rng.byte(), 0x01]);
+        out.push(Case::new("bool-len", vec![format!("stream {} 1", tok(&z))]));
+    }
     // (c) booleans: every byte value
     if w == 0 {
         for b in 0..256usize {
@@ -854,10 +960,15 @@ fn gen_c10(tier: &Tier, rng: &mut Rng, _w: usize, nw: usize, out: &mut Vec<Case>
         };
         // one call per expected result, target chosen per call; extra calls at the end
         let ncalls = 2 * k + 4;
-        let use_read = rng.chance(1, 5);
+        let style = rng.below(5);
         let mut cs = String::new();
         for _ in 0..ncalls {
-            cs.push(if use_read { 'r' } else { *rng.pick(&['n', 'n', 'N']) });
+            cs.push(match style {
+                0 => 'r',
+                1 => *rng.pick(&['r', 'R']),
+                2 => *rng.pick(&['n', 'N', 'r', 'R']),
+                _ => *rng.pick(&['n', 'n', 'N']),
+            });
             cs.push(*rng.pick(&['b', 'f', 'p']));
         }
         if kind == "io" {
